@@ -74,6 +74,9 @@ pub enum DevEvent {
     /// device code acknowledges the events itself (`EventRegister::clear_event`)
     #[serde(alias = "ClearEvent")]
     ClearEvent(Reg),
+    /// device code presets ONE register set through the trait's generic helper
+    /// (`ScpiDevice::preset_register::<REG>()`; a device with its own `preset()` does that per register)
+    PresetOne(Reg),
 }
 
 #[derive(Clone, Debug, PartialEq, Eq, Hash, Serialize, Deserialize)]
@@ -83,6 +86,30 @@ pub struct Step {
     pub tst: Option<ErrSpec>,
     /// (unit, spelling style)
     pub units: Vec<(U, u8)>,
+    /// a stored message executed from inside a handler (nested `Node::run` with the same device and context)
+    #[serde(default)]
+    pub stored: Option<Stored>,
+}
+
+/// `TEST:MACRo "<units>"` (strict: `TEST:SMACro`) inserted before unit `at` of the step (at the end when `at` is beyond it).
+#[derive(Clone, Debug, PartialEq, Eq, Hash, Serialize, Deserialize)]
+pub struct Stored {
+    pub at: u8,
+    pub strict: bool,
+    pub units: Vec<(U, u8)>,
+}
+
+fn render_stored(st: &Stored, first: bool) -> Vec<u8> {
+    let mut v = if first { Vec::new() } else { b":".to_vec() };
+    v.extend_from_slice(if st.strict { b"TEST:SMACro \"" } else { b"TEST:MACR \"" });
+    for (i, (u, style)) in st.units.iter().enumerate() {
+        if i > 0 {
+            v.push(b';');
+        }
+        v.extend_from_slice(&render_unit(u, *style, i == 0));
+    }
+    v.push(b'"');
+    v
 }
 
 #[derive(Clone, Debug, PartialEq, Eq, Hash, Serialize, Deserialize)]
@@ -190,15 +217,33 @@ pub fn render_unit(u: &U, style: u8, first: bool) -> Vec<u8> {
 
 pub fn render_step(step: &Step) -> Vec<u8> {
     let mut out = Vec::new();
+    let at = step.stored.as_ref().map(|s| (s.at as usize).min(step.units.len()));
+    let mut swallowed = false;
     for (i, (u, style)) in step.units.iter().enumerate() {
-        if i > 0 {
+        if at == Some(i) {
+            if !out.is_empty() {
+                out.push(b';');
+            }
+            let first = out.is_empty();
+            out.extend_from_slice(&render_stored(step.stored.as_ref().unwrap(), first));
+        }
+        if !out.is_empty() {
             out.push(b';');
         }
-        out.extend_from_slice(&render_unit(u, *style, i == 0));
+        let first = out.is_empty();
+        out.extend_from_slice(&render_unit(u, *style, first));
         // an unterminated string swallows the rest of the message
         if matches!(u, U::Bad(Bad::UnterminatedString)) {
+            swallowed = true;
             break;
         }
+    }
+    if at == Some(step.units.len()) && !swallowed {
+        if !out.is_empty() {
+            out.push(b';');
+        }
+        let first = out.is_empty();
+        out.extend_from_slice(&render_stored(step.stored.as_ref().unwrap(), first));
     }
     out
 }
@@ -374,9 +419,21 @@ pub fn run_history(h: &History, scope: Scope, obs: &Obs) -> CheckResult {
                     }
                     reg(&mut m, r).event = 0;
                 }
+                DevEvent::PresetOne(r) => {
+                    use scpi_contrib::scpi1999::prelude::{Operation, Questionable, ScpiDevice};
+                    match r {
+                        Reg::Oper => dev.preset_register::<Operation>(),
+                        Reg::Ques => dev.preset_register::<Questionable>(),
+                    }
+                    let rs = reg(&mut m, r);
+                    rs.enable = 0;
+                    rs.ptr = 0xFFFF;
+                    rs.ntr = 0;
+                }
             }
         }
         dev.tst = step.tst;
+        dev.nested.clear();
         let bytes = render_step(step);
         let txt = escape(&bytes);
         // Histories that start with a bounded queue use ONE Context for the whole history, and
@@ -403,7 +460,56 @@ pub fn run_history(h: &History, scope: Scope, obs: &Obs) -> CheckResult {
         let mut failed: Option<(usize, Outcome)> = None;
         // responses by kind, to compare only those in scope
         let mut resp_in_scope = true;
+        let stored_at = step.stored.as_ref().map(|s| (s.at as usize).min(step.units.len()));
+        let mut nested_seen = 0usize;
+        // the stored message of this step: its units act on the model like any message's, its response is
+        // discarded, its failure is reported (queued, flagged) on its own; then MACRo succeeds and SMACro fails with -272
+        macro_rules! run_stored {
+            ($ui:expr) => {{
+                let st = step.stored.as_ref().unwrap();
+                let mut nested_failed: Option<Outcome> = None;
+                for (nu, _) in &st.units {
+                    match model_unit(&mut m, nu, step.mav, &step.tst) {
+                        Outcome::Ok(_) => {}
+                        f => {
+                            nested_failed = Some(f);
+                            break;
+                        }
+                    }
+                }
+                let rec = dev.nested.get(nested_seen).cloned();
+                nested_seen += 1;
+                obs.label("stored message executed from a handler");
+                match (nested_failed, rec) {
+                    (_, None) => return Err(Failure::new("stored-not-run", format!("step {si} {txt:?}: the stored message before unit {} was not executed", $ui))),
+                    (None, Some(None)) => None,
+                    (None, Some(Some(e))) => return Err(Failure::new("spurious-failure", format!("step {si} {txt:?}: the stored message fails with {}, the model expects success", e.get_code()))),
+                    (Some(_), Some(None)) => return Err(Failure::new("failure-swallowed", format!("step {si} {txt:?}: the stored message succeeds although one of its units must fail"))),
+                    (Some(exp), Some(Some(e))) => {
+                        let got = item_of(&e);
+                        match &exp {
+                            Outcome::FailExact(want) if *want != got => return Err(Failure::new("wrong-error", format!("step {si} {txt:?}: the stored message fails with {got:?}, expected exactly {want:?}"))),
+                            Outcome::FailClass(lo, hi) if !(*lo..=*hi).contains(&got.code) => return Err(Failure::new("wrong-error-class", format!("step {si} {txt:?}: the stored message fails with {}, expected a code in {lo}..={hi}", got.code))),
+                            _ => {}
+                        }
+                        m.fail(got);
+                        obs.label("stored message fails");
+                        if st.strict {
+                            Some(Outcome::FailExact(Item { code: -272, message: b"Macro execution error".to_vec(), extended: None }))
+                        } else {
+                            None
+                        }
+                    }
+                }
+            }};
+        }
         for (ui, (u, _)) in step.units.iter().enumerate() {
+            if stored_at == Some(ui) {
+                if let Some(f) = run_stored!(ui) {
+                    failed = Some((ui, f));
+                    break;
+                }
+            }
             if matches!(u, U::StbQ) {
                 let inputs = [!m.queue.is_empty(), m.ques.summary(), step.mav, m.esr & m.ese != 0, m.oper.summary()];
                 if inputs.iter().filter(|b| **b).count() >= 3 {
@@ -440,10 +546,16 @@ pub fn run_history(h: &History, scope: Scope, obs: &Obs) -> CheckResult {
                 }
             }
         }
+        if failed.is_none() && stored_at == Some(step.units.len()) && !step.units.iter().any(|(u, _)| matches!(u, U::Bad(Bad::UnterminatedString))) {
+            if let Some(f) = run_stored!(step.units.len()) {
+                failed = Some((step.units.len(), f));
+            }
+        }
+        let _ = nested_seen;
         if any_resp {
             want_resp.push(b'\n');
         }
-        let adopt = scope.cls_agnostic && step.units.iter().any(|(u, _)| matches!(u, U::Cls | U::Bad(Bad::Surplus)));
+        let adopt = scope.cls_agnostic && step.units.iter().chain(step.stored.iter().flat_map(|s| s.units.iter())).any(|(u, _)| matches!(u, U::Cls | U::Bad(Bad::Surplus)));
         match (&failed, &res) {
             (None, Ok(())) => {
                 if resp_in_scope && !adopt && resp != want_resp {
@@ -516,6 +628,14 @@ pub fn run_history(h: &History, scope: Scope, obs: &Obs) -> CheckResult {
                         return Err(Failure::new("accessor-condition-bit", format!("step {si} {txt:?}: {name}.get_condition_bit({mask:#06x}) = {}, condition {:#06x}", d.get_condition_bit(mask), mm.cond)));
                     }
                 }
+                // ... and so do the trait's generic accessors
+                {
+                    use scpi_contrib::scpi1999::prelude::{Operation, Questionable, ScpiDevice};
+                    let (via, sum) = if name == "OPERation" { (*dev.get_register::<Operation>(), dev.get_register_summary::<Operation>()) } else { (*dev.get_register::<Questionable>(), dev.get_register_summary::<Questionable>()) };
+                    if via != *d || sum != mm.summary() {
+                        return Err(Failure::new("generic-accessor", format!("step {si} {txt:?}: get_register::<{name}>() = {via:?}, get_register_summary = {sum}; the register is {}", show_reg(&dr))));
+                    }
+                }
                 let multi = mm.cond.rotate_left(3) | 0x0101;
                 if d.get_condition_bit(multi) != (mm.cond & multi != 0) {
                     return Err(Failure::new("accessor-condition-bit", format!("step {si} {txt:?}: {name}.get_condition_bit({multi:#06x}) = {}, condition {:#06x}", d.get_condition_bit(multi), mm.cond)));
@@ -577,6 +697,7 @@ pub fn dev_event() -> impl Strategy<Value = DevEvent> {
         2 => (reg_strategy(), u16_value()).prop_map(|(r, v)| DevEvent::SetBits(r, v)),
         2 => (reg_strategy(), u16_value()).prop_map(|(r, v)| DevEvent::ClearBits(r, v)),
         1 => reg_strategy().prop_map(DevEvent::ClearEvent),
+        1 => reg_strategy().prop_map(DevEvent::PresetOne),
     ]
 }
 
@@ -618,7 +739,17 @@ pub fn history(weights: [u32; 5], max_steps: usize, event_rate: u32) -> impl Str
         prop_oneof![6 => Just(None), 1 => fail_spec().prop_map(Some)],
         prop_oneof![19 => proptest::collection::vec((unit(weights), any::<u8>()), 1..5), 1 => proptest::collection::vec((unit(weights), any::<u8>()), 8..24)],
     )
-        .prop_map(|(events, mav, tst, units)| Step { events, mav, tst, units });
+        .prop_map(|(events, mav, tst, units)| Step { events, mav, tst, units, stored: None });
+    // now and then a unit of the step executes a stored message from inside its handler
+    let nested_unit = unit(weights).prop_filter("no quotes, no non-ASCII, no bulk read inside a stored message", |u| !matches!(u, U::Bad(Bad::Garbage) | U::Bad(Bad::UnterminatedString) | U::Bad(Bad::WrongType) | U::ErrAll));
+    let stored = prop_oneof![
+        5 => Just(None),
+        1 => (0u8..6, any::<bool>(), proptest::collection::vec((nested_unit, any::<u8>()), 1..4)).prop_map(|(at, strict, units)| Some(Stored { at, strict, units })),
+    ];
+    let step = (step, stored).prop_map(|(mut s, st)| {
+        s.stored = st;
+        s
+    });
     (any::<bool>(), proptest::collection::vec(step, 1..=max_steps)).prop_map(|(bounded, steps)| History { bounded, steps })
 }
 
@@ -639,17 +770,17 @@ pub fn long_queue_history() -> impl Strategy<Value = History> {
         any::<u8>(),
     )
         .prop_map(|(n, fillers, tail, sre)| {
-            let mut steps: Vec<Step> = vec![Step { events: vec![], mav: false, tst: None, units: vec![(U::Sre((sre | 4) as i32), 0), (U::Ese(255), 0)] }];
+            let mut steps: Vec<Step> = vec![Step { events: vec![], mav: false, tst: None, units: vec![(U::Sre((sre | 4) as i32), 0), (U::Ese(255), 0)], stored: None }];
             for (i, (u, style, probe)) in fillers.into_iter().take(n).enumerate() {
-                steps.push(Step { events: vec![], mav: false, tst: None, units: vec![(u, style)] });
+                steps.push(Step { events: vec![], mav: false, tst: None, units: vec![(u, style)], stored: None });
                 // look at the count / status byte now and then, and always around the 256 and 512 marks
                 let near = (250..262).contains(&i) || (505..520).contains(&i);
                 if probe == 0 || near {
-                    steps.push(Step { events: vec![], mav: probe & 1 == 1, tst: None, units: vec![(U::ErrCount, style), (U::StbQ, style)] });
+                    steps.push(Step { events: vec![], mav: probe & 1 == 1, tst: None, units: vec![(U::ErrCount, style), (U::StbQ, style)], stored: None });
                 }
             }
             for u in tail {
-                steps.push(Step { events: vec![], mav: false, tst: None, units: vec![(u, 0)] });
+                steps.push(Step { events: vec![], mav: false, tst: None, units: vec![(u, 0)], stored: None });
             }
             History { bounded: false, steps }
         })
@@ -665,8 +796,8 @@ pub struct Huge {
 }
 
 pub fn huge_queue(h: &Huge) -> History {
-    let one = |u: U| Step { events: vec![], mav: false, tst: None, units: vec![(u, 0)] };
-    let mut steps: Vec<Step> = vec![Step { events: vec![], mav: false, tst: None, units: vec![(U::Sre(4), 0), (U::Ese(255), 0)] }];
+    let one = |u: U| Step { events: vec![], mav: false, tst: None, units: vec![(u, 0)], stored: None };
+    let mut steps: Vec<Step> = vec![Step { events: vec![], mav: false, tst: None, units: vec![(U::Sre(4), 0), (U::Ese(255), 0)], stored: None }];
     for i in 0..h.n {
         steps.push(one(match (i + h.variant as u32) % 3 {
             0 => U::Fail(ErrSpec { code: -100 - ((i % 4) as i16) * 100, custom: false, extended: false }),
@@ -675,7 +806,7 @@ pub fn huge_queue(h: &Huge) -> History {
         }));
         let c = i + 1;
         if matches!(c, 255 | 256 | 257 | 65534..=65538 | 131070..=131074) || c == h.n {
-            steps.push(Step { events: vec![], mav: c & 1 == 1, tst: None, units: vec![(U::ErrCount, 0), (U::StbQ, 0)] });
+            steps.push(Step { events: vec![], mav: c & 1 == 1, tst: None, units: vec![(U::ErrCount, 0), (U::StbQ, 0)], stored: None });
         }
     }
     for u in [U::ErrNext, U::ErrNext, U::ErrCount, U::StbQ, U::EsrQ, U::ErrNext, U::ErrCount] {
